@@ -136,7 +136,39 @@ class CapturingCompiler(Compiler):
         return instance, init_state
 
 
-def obs_line(obs, kind):
+def space_line(space):
+    """the declared observation space of the SimpleJssp-based factories: shapes and integer bounds"""
+    def hi(box):
+        h = np.asarray(box.high).reshape(-1)
+        return int(h.max()) if h.size else 0
+
+    def lo(box):
+        l = np.asarray(box.low).reshape(-1)
+        return int(l.min()) if l.size else 0
+    jp, mp, jem = space["job_progression"], space["machine_progression"], space["job_executed_on_machine"]
+    unit = all(lo(space[k]) == 0 and hi(space[k]) == 1 for k in ("job_running", "job_executed_on_machine",
+                                                                  "machine_running", "available_jobs"))
+    shapes = (space["job_running"].shape == (jp.shape[0],) and space["available_jobs"].shape == (jp.shape[0],)
+              and space["machine_running"].shape == (mp.shape[0],) and jem.shape == (jp.shape[0], mp.shape[0])
+              and lo(jp) == 0 and lo(mp) == 0 and float(space["current_time"].low.min()) == 0.0
+              and float(space["current_time"].high.max()) == 1.0)
+    return f"B {jp.shape[0]} {mp.shape[0]} {hi(jp)} {hi(mp)} {canon.b01(unit and shapes)}"
+
+
+def in_space(obs, space):
+    """shapes and bounds of the SimpleJssp fields against the declared boxes (dtype and float rounding aside)"""
+    for k in ("job_running", "job_executed_on_machine", "job_progression", "machine_running", "machine_progression",
+              "available_jobs", "current_time"):
+        a = np.asarray(obs[k])
+        box = space[k]
+        if a.shape != box.shape:
+            return False
+        if a.size and not (np.all(a >= box.low) and np.all(a <= box.high)):
+            return False
+    return True
+
+
+def obs_line(obs, kind, space=None):
     def arr(a):
         a = np.asarray(a)
         if a.ndim == 2:
@@ -151,10 +183,13 @@ def obs_line(obs, kind):
         return repr(float(x))
 
     if kind == 0:
-        return ("V jr=%s jem=%s jp=%s mr=%s mp=%s av=%s ct=%s tr=%s" % (
+        line = ("V jr=%s jem=%s jp=%s mr=%s mp=%s av=%s ct=%s tr=%s" % (
             arr(obs["job_running"]), arr(obs["job_executed_on_machine"]), arr(obs["job_progression"]),
             arr(obs["machine_running"]), arr(obs["machine_progression"]), arr(obs["available_jobs"]),
             arr(obs["current_time"]), arr(obs["current_transition"])))
+        if space is not None:
+            line += " in=" + canon.b01(in_space(obs, space))
+        return line
     return "V os=%s jl=%s tr=%s" % (arr(obs["operation_state"][0]), arr(obs["job_locations"][0]),
                                       arr(obs["current_transition"]))
 
@@ -302,9 +337,11 @@ class Run:
         g = guards(self.instance, self.init_state)
         self.out.append("G " + " ".join(canon.b01(x) for x in g[:7] + (samples,) + g[7:]))
         self.out.append(f"L {env.lower_bound} {env.max_allowed_time}")
+        if self.obs_kind == 0:
+            self.out.append(space_line(env.observation_space))
         self._emit_micro(micro)
         self.out += res_lines(env.state)
-        self.out.append(obs_line(env.current_observation[0], self.obs_kind))
+        self.out.append(obs_line(env.current_observation[0], self.obs_kind, env.observation_space))
         rec.result, rec.env_state, rec.obs = env.state, env.state, env.current_observation[0]
         rec.terminated = rec.truncated = False
         self.first_reset_canon = canon.state(env.state.state)
@@ -341,7 +378,7 @@ class Run:
         rec.terminated, rec.truncated, rec.info = terminated, truncated, info
         self._emit_micro(rec.micro)
         self.out += res_lines(env.state)
-        self.out.append(obs_line(obs, self.obs_kind))
+        self.out.append(obs_line(obs, self.obs_kind, self.env.observation_space))
         mk = "-" if info["makespan"] is None else str(info["makespan"])
         self.out.append("F %s %s %s %d %d %d" % (canon.b01(terminated), canon.b01(truncated), mk,
                                                   env.state_simulator.truncation_joker, len(env.history),
@@ -589,7 +626,7 @@ def two_episodes(run, actions, other=None, start=True):
             trace.append("X " + err_name(err))
         else:
             trace += res_lines(run.env.state)
-            trace.append(obs_line(r[0], run.obs_kind))
+            trace.append(obs_line(r[0], run.obs_kind, run.env.observation_space))
             alive = True
             episode()
     finally:
